@@ -22,6 +22,12 @@ def bfs_all_supertypes(f, env, action_pred):
     for n in f.nodes():
         if n.get('k') != 'WhileStmt':
             continue
+        # the visited type may be read into a local first (`type *const t = q.front();`): that local plays the role of q.front()
+        for m in walk(n['slots']['body']):
+            if m.get('k') == 'VarDecl' and isinstance(m.get('init'), dict) and m.get('loc') not in env.rename:
+                ci = canon(m['init'], env, subst=False)
+                if isinstance(ci, tuple) and ci[0] == 'mcall' and str(ci[1]).endswith('::front') and len(ci) == 3:
+                    env.rename[m['loc']] = '%s.front()' % ci[2]
         c = show(canon(n['slots']['cond'], env, subst=False))
         if not (c.startswith('(! (mcall queue') and c.endswith('::empty q))')) and 'empty' not in c:
             continue
@@ -53,15 +59,15 @@ def r1(ctx, fs):
     ctx.rule(rid, 'breadth-first visit of ALL supertypes (no filter, no early exit) in type::new_instance (instance appended to each), predicate::new_instance (atom appended to each) and '
                   'type::new_predicates (new_predicate notified to each when notify is set)', floor=3)
     cases = [
-        ('ratio::type::new_instance', lambda body: any((x.get('callee_name') or '').endswith('::push_back') and 'instances' in show(canon(x)) and 'front' in show(canon(x)) for x in walk(body) if x.get('k') == 'CXXMemberCallExpr')),
-        ('ratio::predicate::new_instance', lambda body: any((x.get('callee_name') or '').endswith('::push_back') and 'instances' in show(canon(x)) and 'front' in show(canon(x)) for x in walk(body) if x.get('k') == 'CXXMemberCallExpr')),
-        ('ratio::type::new_predicates', lambda body: any(x.get('callee_name') == 'ratio::type::new_predicate' and 'front' in show(canon(x)) for x in walk(body) if x.get('k') == 'CXXMemberCallExpr')),
+        ('ratio::type::new_instance', lambda body, env: any((x.get('callee_name') or '').endswith('::push_back') and 'instances' in show(canon(x, env, subst=False)) and 'front' in show(canon(x, env, subst=False)) for x in walk(body) if x.get('k') == 'CXXMemberCallExpr')),
+        ('ratio::predicate::new_instance', lambda body, env: any((x.get('callee_name') or '').endswith('::push_back') and 'instances' in show(canon(x, env, subst=False)) and 'front' in show(canon(x, env, subst=False)) for x in walk(body) if x.get('k') == 'CXXMemberCallExpr')),
+        ('ratio::type::new_predicates', lambda body, env: any(x.get('callee_name') == 'ratio::type::new_predicate' and 'front' in show(canon(x, env, subst=False)) for x in walk(body) if x.get('k') == 'CXXMemberCallExpr')),
     ]
     for name, act in cases:
         f = fs.fn(name)
         env = LocalEnv(f)
         env.local_role('q', lambda n, i: 'std::queue<' in (n.get('t') or ''))
-        ok = bfs_all_supertypes(f, env, act)
+        ok = bfs_all_supertypes(f, env, lambda body, act=act, env=env: act(body, env))
         seed = any(canon(n, env, subst=False)[:3] == ('mcall', [x for x in [n.get('callee_name')]][0], 'q') and canon(n, env, subst=False)[3] == 'this' for n in f.nodes()
                    if n.get('k') == 'CXXMemberCallExpr' and (n.get('callee_name') or '').endswith('::push') and len(canon(n, env, subst=False)) == 4)
         ctx.instance(rid, [f.id, 'bfs'], {'function': f.id, 'visits_every_supertype': ok, 'starts_at_this': seed})
@@ -169,13 +175,28 @@ def r3(ctx, fs):
         'assignment list before default initialisation': bool(asg and dfl) and g.never_after(dfl, asg),
         'default initialisation before the body': bool(dfl and body) and g.never_after(body, dfl) and g.never_after(body, asg) and g.never_after(body, sup),
     }
-    guard = None
-    for n in f.nodes():
-        if n.get('k') == 'IfStmt':
-            c = show(canon(n['slots']['cond'], env, subst=False))
-            if 'is_synthetic' in c and 'count' in c:
-                guard = c
-    facts['only unset, non-synthetic fields get a default'] = guard is not None and guard.startswith('(&& ') and '(! (mcall field::is_synthetic' in guard and '(! (mcall' in guard and '::count (. itm exprs)' in guard
+    # only unset, non-synthetic fields get a default: decided on the atomic decisions of the paths through the loop(s) over the fields
+    guard_ok = True
+    n_store_paths = 0
+    for l in fl:
+        bname = l['slots']['var']['bindings'][0]
+        for p in enum_paths(l['slots']['body']):
+            syn = cnt = None
+            for kind, node, pol in p.conds:
+                if kind != 'if':
+                    continue
+                c = canon(node, env, subst=False)
+                if isinstance(c, tuple) and c[0] == 'mcall' and c[1] == 'ratio::field::is_synthetic':
+                    syn = pol
+                if isinstance(c, tuple) and c[0] == 'mcall' and str(c[1]).endswith('::count') and c[2] == ('.', 'itm', 'exprs') and c[3] == bname:
+                    cnt = pol
+            stores = [m for st in p.stmts for m in walk(st) if m.get('k') == 'CXXMemberCallExpr' and (m.get('callee_name') or '').endswith('::emplace') and
+                      isinstance(canon(m, env, subst=False), tuple) and canon(m, env, subst=False)[2] == ('.', 'itm', 'exprs')]
+            if stores:
+                n_store_paths += 1
+                if syn is not False or cnt is not False:
+                    guard_ok = False
+    facts['only unset, non-synthetic fields get a default'] = guard_ok and n_store_paths > 0
     sups = [n for n in f.nodes() if n.get('k') == 'CXXForRangeStmt' and 'get_supertypes' in show(canon(n['slots']['range'], env, subst=False))]
     facts['every supertype constructed (explicit or default)'] = len(sups) == 1 and len([m for m in walk(sups[0]['slots']['body']) if m.get('callee_name') == 'ratio::constructor::invoke']) == 2
     binds = [canon(n, env, subst=False) for n in f.nodes() if n.get('k') == 'CXXMemberCallExpr' and (n.get('callee_name') or '').endswith('::emplace') and '(. ctx exprs)' in show(canon(n, env, subst=False))]
